@@ -412,7 +412,7 @@ def witness_check_factory(ctx):
 def check(ctx):
     pr = proof_gate(ctx, NEEDS)
     problem = proof_problem(pr)
-    n_gn, n_run = (1400, 70) if ctx.tier == "quick" else (20000, 900)
+    n_gn, n_run = (1000, 56) if ctx.tier == "quick" else (20000, 900)
     if ctx.replay:
         rp = json.load(open(ctx.replay))
         cases = [rp["case"]] if "case" in rp else []
